@@ -372,7 +372,7 @@ pub fn run() -> i32 {
     let seed = ctx.seed;
     let n = ctx.tier.pick(64usize, 512);
     let es = entries();
-    ctx.rule = format!("bounded exhaustive call histories over the inventory of {} randomised entry points: every entry point alone x {} calls; every ordered pair (a,b) interleaved a,b,a,b,a,b; every triple through the hub copy_randombytes; a size sweep of randombytes_buf(n) and copy_randombytes(n) for every n up to 1100 (4200 thorough) x 64 calls; each history under (i) an owned deterministic RNG (seam H3: distinct, never-zero stream per request) and (ii) the production OsRng; oracle on the returned values only: within a history no value of an entry point repeats, none is all-zero, no byte position is constant across >= 64 calls, and (owned-rng histories) no returned value contains the same 8 bytes twice at non-overlapping offsets (fields of one value must come from disjoint draws; coincidence probability < 2^-40 per run, and the verdict is a fixed function of the seed); non-trivial = history executed; the source tree is scanned for randomness call sites not covered by the inventory (reported, not alarmed)", es.len(), n);
+    ctx.rule = format!("bounded exhaustive call histories over the inventory of {} randomised entry points: every entry point alone x {} calls; every ordered pair (a,b) interleaved a,b,a,b,a,b; every triple through the hub copy_randombytes; a size sweep of randombytes_buf(n) and copy_randombytes(n) for every n up to 1100 (4200 thorough) x 64 calls; every entry point on 4 concurrent fresh threads (values must not repeat across threads); each history under (i) an owned deterministic RNG (seam H3: distinct, never-zero stream per request) and (ii) the production OsRng; oracle on the returned values only: within a history no value of an entry point repeats, none is all-zero, no byte position is constant across >= 64 calls, and (owned-rng histories) no returned value contains the same 8 bytes twice at non-overlapping offsets (fields of one value must come from disjoint draws; coincidence probability < 2^-40 per run, and the verdict is a fixed function of the seed); non-trivial = history executed; the source tree is scanned for randomness call sites not covered by the inventory (reported, not alarmed)", es.len(), n);
     ctx.assume("statistical quality of the OS generator is not examined; under OsRng distinctness is asserted only for values >= 16 bytes (false-alarm probability < 2^-100)");
 
     let unmapped = scan_sites();
@@ -444,6 +444,51 @@ pub fn run() -> i32 {
     });
     ctx.note("histories", json!({"singles": es.len(), "ordered_pairs": es.len() * (es.len() - 1), "total": hist.len(), "environments": 2}));
     ctx.absorb("histories", st);
+    // several threads: the k-th value drawn on one thread must not reappear on another (a
+    // generator whose state is partly global and partly per-thread repeats across threads while
+    // every single thread looks healthy). 4 fresh threads x every entry point x 24 calls, OS RNG.
+    {
+        let es_n = es.len();
+        let handles: Vec<std::thread::JoinHandle<Result<Vec<Vec<Vec<u8>>>, String>>> = (0..4)
+            .map(|_| {
+                std::thread::spawn(move || {
+                    let es = entries();
+                    let order: Vec<usize> = (0..es.len()).flat_map(|i| std::iter::repeat(i).take(if es[i].0.contains("ocked") { 2 } else { 24 })).collect();
+                    run_history(&es, &order, None)
+                })
+            })
+            .collect();
+        let per_thread: Vec<Result<Vec<Vec<Vec<u8>>>, String>> = handles.into_iter().map(|h| h.join().unwrap_or_else(|_| Err("thread died".into()))).collect();
+        let mut st = Stats::new();
+        for i in 0..es_n {
+            let mut seen: std::collections::HashMap<Vec<u8>, usize> = std::collections::HashMap::new();
+            let mut bad: Option<String> = None;
+            for (ti, r) in per_thread.iter().enumerate() {
+                match r {
+                    Err(p) => bad = Some(format!("thread {} panicked: {}", ti, p)),
+                    Ok(per) => {
+                        for v in &per[i] {
+                            if v.len() < 16 {
+                                continue;
+                            }
+                            if let Some(&t0) = seen.get(v) {
+                                if t0 != ti {
+                                    bad = Some(format!("threads {} and {} were both handed the value {}", t0, ti, short(v)));
+                                }
+                            } else {
+                                seen.insert(v.clone(), ti);
+                            }
+                        }
+                    }
+                }
+            }
+            st.eval(&("threads", i), true, if bad.is_none() { "fresh-across-threads" } else { "repeats-across-threads" });
+            if let Some(b) = bad {
+                st.fail(Fail { check: "C11.rng".into(), signature: format!("C11/repeat-across-threads/{}", es[i].0), what: format!("{}: {}", es[i].0, b), case: json!({"order": [es[i].0], "seam": Value::Null, "note": "four threads; re-run bin/check C11"}) });
+            }
+        }
+        ctx.absorb("across-threads", st);
+    }
     // size sweep: the byte-array generators for EVERY request size (a chunked or buffered
     // generator can leave a tail, a head or a stride unfilled only for some sizes)
     let top = ctx.tier.pick(1100usize, 4200);
